@@ -47,7 +47,7 @@ def op_strategy(draw, k):
         op.update(fast=draw(st.booleans()), vt=draw(st.sampled_from([0, 0, 3])), table=draw(st.booleans()),
                   path=draw(st.booleans()))
     elif f == "decode":
-        op.update(table=draw(st.booleans()))
+        op.update(table=draw(st.booleans()), corrupted=draw(st.sampled_from([False, False, True])))
     elif f == "set_vt":
         op.update(n=draw(st.integers(1, 6)))
     elif f == "repair_dna":
@@ -85,7 +85,7 @@ def op_strategy(draw, k):
 
 @st.composite
 def histories(draw, tier):
-    graph = draw(gens.coding_graphs(1, 3, weights={1: 1, 2: 3, 3: 2}))
+    graph = draw(gens.coding_graphs(1, 4, weights={1: 2, 2: 6, 3: 4, 4: 1}))
     k = graph["k"]
     dead = [v for v, r in enumerate(graph["rows"]) if not r]
     if dead and draw(st.booleans()):
@@ -124,7 +124,7 @@ def snapshot(bundle):
     snap = {}
     for name, value in bundle.items():
         if isinstance(value, numpy.ndarray):
-            snap[name] = (value.tobytes(), str(value.dtype), value.shape)
+            snap[name] = (value.tobytes(), str(value.dtype), value.shape, value.strides, bool(value.flags.writeable))
         elif isinstance(value, dict):
             snap[name] = json.dumps(history.normalise(value)) + repr([type(v).__name__ for v in value.values()])
         elif name == "filter":
@@ -215,6 +215,76 @@ def evaluate(case):
     return Outcome(True, len(ops) >= 4 and len(set(names)) >= 3, labels)
 
 
+RANDOMISED_OPS = {"approximate_capacity", "create_random_shuffles"}  # seed numpy's global generator: not for threads
+
+
+@st.composite
+def concurrent_histories(draw, tier):
+    jobs = []
+    for _ in range(draw(st.integers(2, 3))):
+        job = draw(histories(tier))
+        ops = [op for op in job["ops"] if op["f"] not in RANDOMISED_OPS][:8]
+        jobs.append({"bundle": job["bundle"], "ops": ops or [{"f": "obtain_vertices"}]})
+    return {"jobs": jobs, "rounds": draw(st.sampled_from([2, 3, 5]))}
+
+
+def evaluate_concurrent(case):
+    """Schedules: every job (own bundle of arguments, own list of calls) runs in its own thread at the same time, with
+    the interpreter switching threads every microsecond; every result must equal the one the same call gives when
+    the jobs run one after the other."""
+    import contextlib
+    import io
+    import sys
+    import threading
+    previous = os.environ.get("VERIF_NO_POOL")
+    os.environ["VERIF_NO_POOL"] = "1"  # every job needs argument objects of its own
+    try:
+        baseline_bundles = [history.build_bundle(job["bundle"]) for job in case["jobs"]]
+        bundles = [history.build_bundle(job["bundle"]) for job in case["jobs"]]
+    finally:
+        if previous is None:
+            del os.environ["VERIF_NO_POOL"]
+        else:
+            os.environ["VERIF_NO_POOL"] = previous
+    baseline = [[history.execute(op, bundle)[0] for op in job["ops"]]
+                for job, bundle in zip(case["jobs"], baseline_bundles)]
+    wrong, barrier = [], threading.Barrier(len(case["jobs"]))
+
+    def worker(index):
+        try:
+            barrier.wait(timeout=60)
+        except threading.BrokenBarrierError:
+            pass
+        for round_index in range(case["rounds"]):
+            for position, op in enumerate(case["jobs"][index]["ops"]):
+                try:
+                    result = history.normalise(history.call(op, bundles[index]))
+                except Exception as exc:  # noqa - the exception type is part of the observable result
+                    result = {"raised": type(exc).__name__}
+                if result != baseline[index][position] and len(wrong) < 3:
+                    wrong.append((index, round_index, op, result, baseline[index][position]))
+
+    old_interval = sys.getswitchinterval()
+    threads = [threading.Thread(target=worker, args=(i,), daemon=True) for i in range(len(case["jobs"]))]
+    try:
+        sys.setswitchinterval(1e-6)
+        with contextlib.redirect_stdout(io.StringIO()):
+            for thread in threads:
+                thread.start()
+            for thread in threads:
+                thread.join()
+    finally:
+        sys.setswitchinterval(old_interval)
+    names = sorted({op["f"] for job in case["jobs"] for op in job["ops"]})
+    labels = ["threads=%d" % len(case["jobs"])] + ["f:" + name for name in names]
+    if wrong:
+        index, round_index, op, result, want = wrong[0]
+        return bad("with %d threads working on their own arguments at the same time, call %r of thread %d (round %d) "
+                   "returned %s, but %s when the jobs run one after the other"
+                   % (len(case["jobs"]), op, index, round_index, short(result), short(want)), labels)
+    return Outcome(True, len(names) >= 3, labels)
+
+
 def short(value):
     text = json.dumps(value)
     return text if len(text) <= 160 else text[:160] + "..."
@@ -225,6 +295,13 @@ SUBCHECKS = [
              floors={"fresh_interpreter": 15, "untrimmed_graph": 90, "verbose_twin": 300, "f:connect_coding_graph": 80, "f:encode": 80,
                      "f:get_complete_accessor": 60, "f:complete_then_trim": 30, "f:repair_dna": 30}, rule=RULE,
              timeout=300.0),
+    SubCheck("concurrent_histories", evaluate_concurrent, strategy=concurrent_histories, examples=(96, 960),
+             shards=(16, 16), floors={"threads=3": 20, "f:encode": 20, "f:repair_dna": 15}, timeout=300.0,
+             rule="Schedules: 2..3 jobs, each a bundle of arguments of its own and up to 8 calls drawn as in "
+                  "call_histories (the two calls that seed numpy's global generator excepted), run in threads at the "
+                  "same time for 2..5 rounds with a switch interval of one microsecond; every result must equal the "
+                  "result of the same call when the jobs run one after the other. Non-trivial: three or more "
+                  "different functions take part."),
 ]
 
 TECHNIQUE = ("model-based property testing of call histories (Hypothesis-generated operation sequences on shared "
